@@ -60,7 +60,10 @@ def check_violation(ctx, name, lines, v):
     if er is not None and ((er, ec) < (row, col)):
         ctx.fail("violation end is before its start", desc, None, None)
     if text is not None and not agg and text != line:
-        ctx.fail("violation text is not the reported line", desc, None, {"line": line})
+        known = None
+        if title == "impossible-not" and text.startswith("not ") and text in line:
+            known = "C07-impossible-not-synthesised-text"
+        ctx.fail("violation text is not the reported line", desc, known, {"line": line})
 
 
 def run(ctx):
